@@ -39,12 +39,13 @@ class C13(tk.TableProp):
     # ------------------------------------------------------------------ generation
     def boundary(self):
         rng = random.Random("C13-boundary")
-        return [self._gen(rng, "quick", mode=m) for m in MODES[2:]] + [self._gen(rng, "quick", mode="clean", pop=p) for p in (0, 1)]
+        return ([self._gen(rng, "quick", mode=m) for m in MODES[2:]] + [self._gen(rng, "quick", mode="clean", pop=p) for p in (0, 1)]
+                + [self._gen(rng, "quick", mode="clean", nocol=k) for k in ("builder", "component", "ledger", "all")])
 
     def generate(self, rng, i, tier):
         return self._gen(rng, tier)
 
-    def _gen(self, rng, tier, mode=None, pop=None):
+    def _gen(self, rng, tier, mode=None, pop=None, nocol=None):
         mode = mode or rng.choice(MODES)
         ncomp = rng.randint(1, 3)
         if mode in ("conflict_initial", "sloppy_initial", "conflict_birth", "sloppy_birth"):
@@ -65,6 +66,18 @@ class C13(tk.TableProp):
                 vc = vc + ["zz"]
             c["views"].append({"id": 10 + j, "cols": vc, "q": ["T"]})
         comps[0]["views"].append({"id": 30, "cols": [], "q": ["T"]})
+        for c in comps:
+            if rng.random() < 0.3:
+                c["reg"] = "component"            # registered by Component (on_initialize_simulants + columns_created)
+        # initializers that create NO column (resource type "null"), in the three ways one can be registered
+        nocol = rng.choice(["none", "none", "builder", "component", "ledger", "all"]) if nocol is None else nocol
+        owned = [c["cols"][0][0] for c in comps]
+        if nocol in ("builder", "all"):
+            comps.append({"name": "wb", "cols": [], "views": [], "reg": "builder", "requires": rng.choice([[], [rng.choice(owned)]])})
+        if nocol in ("component", "all"):
+            comps.append({"name": "wc", "cols": [], "views": [], "reg": "component", "requires": rng.choice([[], [rng.choice(owned)]])})
+        if nocol in ("ledger", "all"):
+            comps[0]["ledgers"] = ["ledger"]
         pop = (0 if mode == "zero_pop" else rng.choice([1, 2, 3, 4, 6])) if pop is None else pop
         clock = {"kind": rng.choice(["simple", "simple", "datetime"]), "step": rng.choice([1, 1, 2, 3])}
         if clock["kind"] == "simple":
@@ -145,8 +158,8 @@ class C13(tk.TableProp):
         if not aborted:
             for s in range(steps):
                 for ph in tk.PHASES:
-                    for j in range(ncomp):
-                        if rng.random() > 0.3:
+                    for j in range(len(comps)):
+                        if rng.random() > (0.3 if j < ncomp else 0.15):
                             continue
                         acts = []
                         for _ in range(rng.randint(1, 2)):
@@ -176,7 +189,7 @@ class C13(tk.TableProp):
                                     remember(fills[f"c{q}"][-1])
                                     if stop:
                                         break
-                                acts.append({"a": "create", "k": k, "comp": f"c{j}", "fills": fills,
+                                acts.append({"a": "create", "k": k, "comp": comps[j]["name"], "fills": fills,
                                              "user": rng.choice([None, {"tag": "b"}])})
                                 n += k
                                 if stop:
@@ -185,7 +198,7 @@ class C13(tk.TableProp):
                                 rows = rng.sample(range(n), rng.randint(1, min(n, 3)))
                                 acts.append({"a": "upd", "view": 0, "form": "S", "rows": rows,
                                              "cols": [[rng.choice([None, "tracked"]), "bool", [rng.choice(["b0", "b0", "b1"]) for _ in rows]]]})
-                            elif n:
+                            elif n and comps[j]["cols"]:
                                 rows = rng.sample(range(n), rng.randint(1, min(n, 3)))
                                 x, d = rng.choice(comps[j]["cols"])
                                 acts.append({"a": "upd", "view": 10 + j, "form": "D", "rows": rows,
@@ -193,7 +206,7 @@ class C13(tk.TableProp):
                             if aborted:
                                 break
                         if acts:
-                            hooks[f"{s}:{ph}:c{j}"] = acts
+                            hooks[f"{s}:{ph}:{comps[j]['name']}"] = acts
                         if aborted:
                             break
                     if aborted:
@@ -224,7 +237,7 @@ class C13(tk.TableProp):
         handed = set()
         creations = {}
         cur_event = None
-        probes = [c["name"] for c in case["comps"]]
+        probes = [c["name"] for c in case["comps"]] + [l for c in case["comps"] for l in c.get("ledgers", [])]
         for i, e, prev, cr in tk.walk(obs):
             t = e["t"]
             if t == "event":
@@ -383,7 +396,10 @@ class C13(tk.TableProp):
         return any(e["t"] == "create" and e["no"] > 0 and e["k"] > 0 and e["out"] == "ok" for e in obs["log"])
 
     def tags(self, case, obs):
-        t = ["mode:" + case.get("mode", "?"), "clock:" + case["clock"]["kind"], f"comps:{len(case['comps'])}", f"pop:{min(case['pop'], 6)}"]
+        t = ["nocol-initializer:" + (c.get("reg", "builder") if not c["cols"] else "") for c in case["comps"] if not c["cols"]]
+        t += ["nocol-initializer:ledger" for c in case["comps"] for _ in c.get("ledgers", [])]
+        t += ["registered-by-component" for c in case["comps"] if c.get("reg") == "component" and c["cols"]]
+        t += ["mode:" + case.get("mode", "?"), "clock:" + case["clock"]["kind"], f"comps:{len(case['comps'])}", f"pop:{min(case['pop'], 6)}"]
         for i, e, prev, cr in tk.walk(obs):
             if e["t"] == "create":
                 ph = "initial" if e["no"] == 0 else "birth"
